@@ -11,7 +11,7 @@ from typing import Dict, List, Set, Optional, Union
 
 # Local imports
 from ...datatype import datatype, AllowArbConfig
-from ...module import Module
+from ...module import Module, _banned as _banned_module_names
 from ...external_module import ExternalModuleCall
 from ...instance import _Instance, Instance, InstanceArray, InstanceBundle
 from ...primitives import PrimitiveCall
@@ -42,7 +42,7 @@ class TakenNames:
         self.module = module
 
     def __contains__(self, name: str) -> bool:
-        if name in self.module.namespace:
+        if name in self.module.namespace or name in _banned_module_names:
             return True
         return name in (getattr(self.module, "_dissolved_names", None) or ())
 
